@@ -391,6 +391,43 @@ def run(F, rep):
     if n_o < 40:
         raise AnalysisBroken('C09.O1: only %d owner lookups with a dereference found (60+ confirmed)' % n_o)
 
+    # ------------------------------------------------------------------ Q1: "same owner" is not "both have none"
+    rep.rule('C09.Q1', 'where two owner lookups (owningModel / owningComponent / parent) are compared for equality to decide "same model / same component", one of them is known to be non-null there: '
+                       'two entities that have no such owner at all (never added, or top-level components, whose parent is a model and not a component) are otherwise taken to share one')
+    Q_EXEMPT = {'listComponentIdsAndItems': 'de-duplication of connection entries in the annotator index: in each conjunction one of the two comparisons involves a variable of the component being walked, which has an owner; '
+                                            'equivalent variables without a component are all filed under one (component, none) connection, which has no id to offer anyway'}
+    n_q = 0
+
+    def _src(n):
+        while n.get('k') in ('Construct', 'Cast', 'Temp', 'Paren') and len(n.get('c', [])) == 1:
+            n = n['c'][0]
+        return n
+    for g in F.funcs.values():
+        if '/src/' not in g.file:
+            continue
+        for b in g.walk():
+            op = b.get('op') or b.get('opc')
+            if b.get('k') in ('Bin', 'Call') and op in ('==', '!=') and len(b.get('c', [])) == 2:
+                l, r = _src(b['c'][0]), _src(b['c'][1])
+                if nullres.source_kind(l) in ('owningComponent', 'owningModel', 'parent') and nullres.source_kind(r) in ('owningComponent', 'owningModel', 'parent'):
+                    n_q += 1
+                    key = '%s|%s' % (g.name, render(b)[:70])
+                    if g.name in Q_EXEMPT:
+                        rep.exempt('C09.Q1', key, Q_EXEMPT[g.name])
+                        continue
+                    # a sibling conjunct (or a dominating condition) tests one of the two lookups against null
+                    texts = {render(l), render(r)}
+                    nn = False
+                    for cnd, t in (ff(g).conds_at(b) or []):
+                        from facts import null_test
+                        nt = null_test(cnd)
+                        if nt is not None and nt[1] == t and render(nt[0]) in texts:
+                            nn = True
+                    rep.check(nn, 'C09.Q1', key, g.where(b), '%s decides "same owner" by `%s` although both sides can be null: entities without that owner all look alike' % (g.short, render(b)[:80]), 'one side tested non-null')
+    if n_q < 3:
+        raise AnalysisBroken('C09.Q1: comparisons of two owner lookups: %d found, 5 confirmed' % n_q)
+
+
 
 def strip_cast(n):
     while n is not None and n.get('k') in ('Cast', 'Construct') and len(n.get('c', [])) == 1:
